@@ -60,6 +60,24 @@ build_inst() { # $1 = extra go build flags (e.g. -race)
 	export VERIF_SITES="$SCR/sites.json"
 }
 
+# Instrumentation equivalence (thorough tier): with the simulator inactive the
+# seams are no-ops, so the repository's own suite must pass on the instrumented
+# copy whenever it passes on the plain tree.  A difference is infrastructure
+# trouble (exit 2), never a VIOLATION.
+equivalence_gate() {
+	[ "$1" = "thorough" ] || return 0
+	if (cd "$VERIF_REPO" && go test -vet=off -count=1 ./... >"$SCR/suite-plain.log" 2>&1); then
+		if ! (cd "$SCR/repo" && go test -vet=off -count=1 ./... >"$SCR/suite-inst.log" 2>&1); then
+			tail -30 "$SCR/suite-inst.log" >&2
+			echo "instrumentation equivalence gate failed: the suite passes on the plain tree but not on the instrumented copy" >&2
+			exit 2
+		fi
+		echo "instrumentation equivalence gate: repository suite passes on the instrumented copy"
+	else
+		echo "instrumentation equivalence gate skipped: the suite does not pass on the plain tree"
+	fi
+}
+
 run_check() { # id tier...
 	local id="$1"
 	shift
@@ -72,6 +90,7 @@ run_check() { # id tier...
 		;;
 	C17)
 		build_inst ""
+		equivalence_gate "${1:-quick}"
 		export VERIF_BUILD="seams=maporder,clock"
 		export VERIF_SCRATCH_RUN="$SCR"
 		"$SCR/vhinst" "$id" "$@"
@@ -79,6 +98,7 @@ run_check() { # id tier...
 		;;
 	C18)
 		build_inst "-race"
+		equivalence_gate "${1:-quick}"
 		export VERIF_BUILD="seams=maporder,clock,yield,lock;race"
 		export VERIF_SCRATCH_RUN="$SCR"
 		"$SCR/vhinst" "$id" "$@"
